@@ -254,6 +254,15 @@ pub const GC_CORPUS: &[(&str, &str)] = &[
     ("table-copy-init", r#"(module (table $a 1 funcref) (table $b 1 funcref) (table $c 1 funcref) (func $x) (elem $e func $x)
         (func (export "f") (table.copy $a $b (i32.const 0) (i32.const 0) (i32.const 1)) (table.init $c $e (i32.const 0) (i32.const 0) (i32.const 1)) (elem.drop $e)))"#),
     ("block-type-keeps-type", r#"(module (type $bt (func (param i32) (result i32 i32))) (func (export "f") (result i32 i32) (i32.const 1) (block (type $bt) (i32.const 2))))"#),
+    ("unused-table-with-segment", r#"(module (table $dead 2 funcref) (func $x) (elem (table $dead) (i32.const 0) func $x) (func (export "f")))"#),
+    ("unused-memory-with-data-kept", r#"(module (memory $m 1) (data (i32.const 0) "x") (func (export "f")))"#),
+    ("global-ref-func-only", r#"(module (func $only_here) (global $g funcref (ref.func $only_here)) (func (export "f") (drop (global.get $g))))"#),
+    ("table-copy-src-only", r#"(module (table $dst 1 funcref) (table $src 1 funcref) (func $in_src) (elem (table $src) (i32.const 0) func $in_src)
+        (func (export "f") (table.copy $dst $src (i32.const 0) (i32.const 0) (i32.const 1))))"#),
+    ("declared-only-ref-func", r#"(module (func $d) (elem declare func $d) (func (export "f") (result funcref) (ref.func $d)))"#),
+    ("memory-copy-src-only", r#"(module (memory $a 1) (memory $b 1) (data (memory $b) (i32.const 0) "q") (func (export "f") (memory.copy $a $b (i32.const 0) (i32.const 0) (i32.const 1))))"#),
+    ("call-indirect-only-table-and-type", r#"(module (type $s (func (param i64))) (table $t 1 funcref) (func $callee (type $s)) (elem (table $t) (i32.const 0) func $callee)
+        (func (export "f") (call_indirect $t (type $s) (i64.const 1) (i32.const 0))))"#),
     ("data-drop-memory-init", r#"(module (memory $m 1) (data $p "abc") (data $q "zzz") (func (export "f") (memory.init $m $p (i32.const 0) (i32.const 0) (i32.const 3)) (data.drop $p)))"#),
 ];
 
@@ -295,6 +304,15 @@ pub fn gc(args: &[String]) -> Result<Value> {
             let out = m.emit_wasm();
             if let Err(e) = validates(&out) { return Ok(Some(format!("output of gc+emit does not validate: {e}"))); }
             if export_names(&out)? != export_names(&w2)? { return Ok(Some("exports changed".into())); }
+            // precision (C07): nothing unreachable from the roots may remain
+            let dead = crate::reach::unreachable(&out)?;
+            if !dead.is_empty() { return Ok(Some(format!("after gc the module still contains entities unreachable from the roots: {:?}", dead))); }
+            // soundness + precision together (C06/C07): what is kept is exactly what an independent analysis of the INPUT finds
+            // reachable (one extra memory tolerated when data segments are kept and no memory is reachable)
+            let (_, want) = crate::reach::counts(&w2)?;
+            let (mut have, _) = crate::reach::counts(&out)?;
+            if want[2] == 0 && have[2] == 1 && have[4] > 0 { have[2] = 0; }
+            if want != have { return Ok(Some(format!("kept entities (funcs, tables, memories, globals, datas, elems) = {:?}, reachable in the input = {:?}", have, want))); }
             walrus::passes::gc::run(&mut m);
             let out2 = m.emit_wasm();
             if crate::entities::canonical(&out2)? != crate::entities::canonical(&out)? { return Ok(Some("a second gc run changed the module".into())); }
